@@ -20,7 +20,8 @@ func init() {
 			"same collection; maybeBuildFlowCollection returns a collection only where buckets[startIndex].pushed is false; pushed is set only by FlowCollection.Complete (for every bucket recorded in the " +
 			"collection) and cleared only by AggregationBucket.Reset; every bucket whose flows are gathered into a collection is recorded in it; (count) BucketRing.AddFlow adds an accepted flow to exactly " +
 			"one AggregationBucket, the one findBucket returned for flow.StartTime, on every non-rejecting path, and files it in the DiachronicFlow under that same bucket's window; findBucket returns a bucket " +
-			"only under StartTime <= t < EndTime of that bucket; Reset replaces the per-bucket statistics and clears the pushed flag.",
+			"only under StartTime <= t < EndTime of that bucket; Reset replaces the per-bucket statistics and clears the pushed flag; " +
+			"(expiry) the limit handed to DiachronicFlow.Rollover is read from the BucketRing (accessor call or field load, possibly through a captured variable) and no instruction that can run after that read in the rolling function - directly or through package callees - writes a BucketRing field the read depends on (the head index): the DiachronicFlows are pruned against the ring as it is after the recycle.",
 		NotDecided: "The arithmetic itself: that List/Statistics sums equal the sums of accepted flows (DiachronicFlow window arithmetic, statisticsIndex), ring index arithmetic (indexSubtract/iterBuckets ranges), " +
 			"and the treatment of flows that arrive for a window after it was emitted (AggregationBucket.AddFlow accepts them with a warning; they are counted in queries but never emitted).",
 		Assumptions: []string{
@@ -40,6 +41,11 @@ func init() {
 				Old: "\t\tflows.buckets = append(flows.buckets, r.buckets[i])\n", New: "", Expect: "C32.once/recorded"},
 			{Name: "second emission path on rollover", File: "goldmane/pkg/storage/bucket_ring.go",
 				Old: "\tif sink != nil {\n\t\tr.EmitFlowCollections(sink)\n\t}\n", New: "\tif sink != nil {\n\t\tr.EmitFlowCollections(sink)\n\t\tsink.Receive(NewFlowCollection(startTime, endTime))\n\t}\n", Expect: "C32.once/receive-owner"},
+			{Name: "expiry limit looked up once, before the head advances", File: "goldmane/pkg/storage/bucket_ring.go",
+				Old: "\t// Send flows to the stream manager.\n\tr.flushToStreams()\n\n\t// Move the head index to the next bucket.\n\tr.headIndex = r.nextBucketIndex(r.headIndex)\n\n\t// Capture the flows from the bucket before we clear it.\n\tflows := set.New[*DiachronicFlow]()\n\tif r.buckets[r.headIndex].Flows != nil {\n\t\tfor d := range r.buckets[r.headIndex].Flows.All() {\n\t\t\tflows.Add(d)\n\t\t}\n\t}\n\n\t// Clear data from the bucket that is now the head. The start time of the new bucket\n\t// is the end time of the previous bucket.\n\tr.buckets[r.headIndex].Reset(startTime, endTime)\n\n\t// Update DiachronicFlows. We need to remove any windows from the DiachronicFlows that have expired.\n\t// Find the oldest bucket's start time and remove any data from the DiachronicFlows that is older than that.\n\tfor d := range flows.All() {\n\t\t// Rollover the DiachronicFlow. This will remove any expired data from it.\n\t\td.Rollover(r.BeginningOfHistory())",
+				New: "\texpiry := r.BeginningOfHistory()\n\t// Send flows to the stream manager.\n\tr.flushToStreams()\n\n\t// Move the head index to the next bucket.\n\tr.headIndex = r.nextBucketIndex(r.headIndex)\n\n\t// Capture the flows from the bucket before we clear it.\n\tflows := set.New[*DiachronicFlow]()\n\tif r.buckets[r.headIndex].Flows != nil {\n\t\tfor d := range r.buckets[r.headIndex].Flows.All() {\n\t\t\tflows.Add(d)\n\t\t}\n\t}\n\n\t// Clear data from the bucket that is now the head. The start time of the new bucket\n\t// is the end time of the previous bucket.\n\tr.buckets[r.headIndex].Reset(startTime, endTime)\n\n\t// Update DiachronicFlows. We need to remove any windows from the DiachronicFlows that have expired.\n\t// Find the oldest bucket's start time and remove any data from the DiachronicFlows that is older than that.\n\tfor d := range flows.All() {\n\t\t// Rollover the DiachronicFlow. This will remove any expired data from it.\n\t\td.Rollover(expiry)", Expect: "C32.expiry/BucketRing.Rollover"},
+			{Name: "windows pruned against the old head's end time captured before the advance", File: "goldmane/pkg/storage/bucket_ring.go",
+				Old: "d.Rollover(r.BeginningOfHistory())", New: "d.Rollover(startTime)", Expect: "C32.expiry/BucketRing.Rollover"},
 			{Name: "flow accepted but not added to its bucket", File: "goldmane/pkg/storage/bucket_ring.go",
 				Old: "\tbucket.AddFlow(flow)\n}", New: "}", Expect: "C32.count/one-bucket"},
 			{Name: "flow added to its bucket twice", File: "goldmane/pkg/storage/bucket_ring.go",
@@ -77,10 +83,311 @@ func c32BucketIndex(v ssa.Value, fBuckets *types.Var) ssa.Value {
 	return nil
 }
 
+// c32Writes: the package-local struct field written by in (field store, element
+// store into a slice/array field, map update of a map field); nil otherwise.
+func c32Writes(in ssa.Instruction) *types.Var {
+	var addr ssa.Value
+	switch x := in.(type) {
+	case *ssa.Store:
+		addr = x.Addr
+	case *ssa.MapUpdate:
+		return fieldVar(x.Map)
+	default:
+		return nil
+	}
+	if ia, ok := addr.(*ssa.IndexAddr); ok {
+		return fieldVar(ia.X)
+	}
+	if fa, ok := addr.(*ssa.FieldAddr); ok {
+		return fieldVar(fa)
+	}
+	return nil
+}
+
+// c32RingFields: the fields of BucketRing itself (its index state), by object.
+func c32RingFields(ringT *types.TypeName) map[*types.Var]bool {
+	out := map[*types.Var]bool{}
+	if st, ok := ringT.Type().Underlying().(*types.Struct); ok {
+		for i := 0; i < st.NumFields(); i++ {
+			out[st.Field(i)] = true
+		}
+	}
+	return out
+}
+
+type c32Read struct {
+	at   ssa.Instruction
+	rs   map[*types.Var]bool
+	what string
+}
+
+// c32Expiry: a flow is retained exactly while its bucket is in the ring; when
+// Rollover recycles a bucket, the windows of that bucket must leave the
+// DiachronicFlows, which prune everything ending at or before the limit they are
+// given.  The limit therefore has to describe the ring *after* the recycle.
+// For every call DiachronicFlow.Rollover(limit): limit is the result of method
+// calls on the BucketRing ("reads" of the ring, possibly through a variable
+// captured by the closure the call is in), and no instruction that can execute
+// after such a read - in the function holding the read, or, for a read inside a
+// closure, after the closure is made in the enclosing function - writes a field
+// of BucketRing itself (its index state: head index, bucket slice) that the read
+// (the accessor with its callees, or the address chain of a direct load) depends
+// on.  Bucket contents are deliberately not part of the read set: Reset of the new
+// head after the read does not change the oldest bucket's start time, and moving
+// the lookup between the advance and the Reset is behaviour-preserving.
+// Capturing a pre-advance value on purpose (startTime) is fine as long as it is
+// not what the DiachronicFlows are pruned against.
+func c32Expiry(c *Ctx, p *Prog) {
+	sink := c23Func(c, p, c32Pkg, "DiachronicFlow.Rollover")
+	ringT, _ := p.LookupObj(c32Pkg, "BucketRing").(*types.TypeName)
+	if ringT == nil {
+		c.Lost("type BucketRing")
+	}
+	ringFields := c32RingFields(ringT)
+	if len(ringFields) == 0 {
+		c.Lost("BucketRing has no fields")
+	}
+	inRing := func(_ *Prog, v *types.Var) bool { return v != nil && ringFields[v] }
+	// fields of the ring a function (with callees in the package) loads / writes
+	readSet := func(f *ssa.Function) map[*types.Var]bool {
+		out := map[*types.Var]bool{}
+		for g := range p.closure(f) {
+			allInstrs(g, false, func(_ *ssa.Function, in ssa.Instruction) {
+				switch x := in.(type) {
+				case *ssa.FieldAddr:
+					if addrIsRead(x) {
+						if fv := fieldVar(x); inRing(p, fv) {
+							out[fv] = true
+						}
+					}
+				case *ssa.Field:
+					if fv := fieldVar(x); inRing(p, fv) {
+						out[fv] = true
+					}
+				}
+			})
+		}
+		return out
+	}
+	writeMemo := map[*ssa.Function]map[*types.Var]bool{}
+	writeSet := func(f *ssa.Function) map[*types.Var]bool {
+		if w, ok := writeMemo[f]; ok {
+			return w
+		}
+		out := map[*types.Var]bool{}
+		for g := range p.closure(f) {
+			allInstrs(g, false, func(_ *ssa.Function, in ssa.Instruction) {
+				if fv := c32Writes(in); inRing(p, fv) {
+					out[fv] = true
+				}
+			})
+		}
+		writeMemo[f] = out
+		return out
+	}
+	// what `in` may write: directly or through the functions it calls / closures it runs
+	mayWrite := func(in ssa.Instruction, rs map[*types.Var]bool) *types.Var {
+		if fv := c32Writes(in); fv != nil && rs[fv] {
+			return fv
+		}
+		ci, ok := in.(ssa.CallInstruction)
+		if !ok {
+			return nil
+		}
+		var callees []*ssa.Function
+		if g := calleeFn(ci.Common()); g != nil {
+			callees = append(callees, g)
+		} else if ci.Common().IsInvoke() {
+			callees = append(callees, p.implsOf(ci.Common().Method)...)
+		}
+		for _, a := range ci.Common().Args {
+			if mc, ok := a.(*ssa.MakeClosure); ok {
+				callees = append(callees, mc.Fn.(*ssa.Function))
+			}
+		}
+		for _, g := range callees {
+			for fv := range writeSet(g) {
+				if rs[fv] {
+					return fv
+				}
+			}
+		}
+		return nil
+	}
+	// makeClosureOf: the instruction creating closure f in its parent
+	makeClosureOf := func(f *ssa.Function) *ssa.MakeClosure {
+		var out *ssa.MakeClosure
+		if f.Parent() == nil {
+			return nil
+		}
+		allInstrs(f.Parent(), false, func(_ *ssa.Function, in ssa.Instruction) {
+			if mc, ok := in.(*ssa.MakeClosure); ok && mc.Fn == ssa.Value(f) {
+				out = mc
+			}
+		})
+		return out
+	}
+	// resolve the limit to ring reads, following captured variables outwards
+	// chainFields: ring fields on the address chain of a direct load (r.buckets[r.headIndex].EndTime)
+	var chainFields func(v ssa.Value, out map[*types.Var]bool, depth int)
+	chainFields = func(v ssa.Value, out map[*types.Var]bool, depth int) {
+		if depth > 12 || v == nil {
+			return
+		}
+		switch x := v.(type) {
+		case *ssa.FieldAddr:
+			if fv := fieldVar(x); inRing(p, fv) {
+				out[fv] = true
+			}
+			chainFields(x.X, out, depth+1)
+		case *ssa.Field:
+			if fv := fieldVar(x); inRing(p, fv) {
+				out[fv] = true
+			}
+			chainFields(x.X, out, depth+1)
+		case *ssa.IndexAddr:
+			chainFields(x.X, out, depth+1)
+			chainFields(x.Index, out, depth+1)
+		case *ssa.Index:
+			chainFields(x.X, out, depth+1)
+			chainFields(x.Index, out, depth+1)
+		case *ssa.UnOp:
+			chainFields(x.X, out, depth+1)
+		case *ssa.Call:
+			if g := calleeFn(x.Common()); g != nil {
+				for fv := range readSet(g) {
+					out[fv] = true
+				}
+			}
+			for _, a := range x.Call.Args {
+				chainFields(a, out, depth+1)
+			}
+		}
+	}
+	// resolve the limit to ring reads, following captured variables outwards
+	var resolve func(v ssa.Value, fn *ssa.Function, depth int) (reads []c32Read, other []string)
+	resolve = func(v ssa.Value, fn *ssa.Function, depth int) (reads []c32Read, other []string) {
+		for _, o := range origins(v, nil) {
+			switch x := o.V.(type) {
+			case *ssa.Call:
+				g := calleeFn(x.Common())
+				if g != nil && g.Signature.Recv() != nil && types.Identical(derefType(g.Signature.Recv().Type()), ringT.Type()) {
+					if rs := readSet(g); len(rs) > 0 {
+						reads = append(reads, c32Read{x, rs, fnName(g) + "()"})
+						continue
+					}
+				}
+				other = append(other, path(x))
+			case *ssa.FieldAddr:
+				rs := map[*types.Var]bool{}
+				chainFields(x, rs, 0)
+				if len(rs) == 0 {
+					other = append(other, path(x))
+					continue
+				}
+				reads = append(reads, c32Read{x, rs, path(x)})
+			case *ssa.FreeVar:
+				mc := makeClosureOf(fn)
+				idx := -1
+				for i, fv := range fn.FreeVars {
+					if fv == x {
+						idx = i
+					}
+				}
+				if mc == nil || idx < 0 || idx >= len(mc.Bindings) || depth > 4 {
+					other = append(other, path(x))
+					continue
+				}
+				// the binding is the address of the captured variable: its stored values
+				al, ok := mc.Bindings[idx].(*ssa.Alloc)
+				if !ok || al.Referrers() == nil {
+					other = append(other, path(x))
+					continue
+				}
+				n := 0
+				for _, r := range *al.Referrers() {
+					if st, ok := r.(*ssa.Store); ok && st.Addr == ssa.Value(al) {
+						n++
+						r2, o2 := resolve(st.Val, fn.Parent(), depth+1)
+						reads = append(reads, r2...)
+						other = append(other, o2...)
+					}
+				}
+				if n == 0 {
+					other = append(other, path(x))
+				}
+			default:
+				other = append(other, path(o.V))
+			}
+		}
+		return
+	}
+	n := 0
+	for _, f := range p.AllFuncs() {
+		for _, cs := range callsIn(f, false, func(fn *types.Func) bool { return fn == sink.Object() }) {
+			n++
+			site := p.Pos(cs.Instr.Pos())
+			key := "C32.expiry/" + fnName(topFn(f))
+			if len(cs.Args()) < 2 {
+				c.Lost("DiachronicFlow.Rollover has no limit argument")
+			}
+			reads, other := resolve(cs.Args()[1], f, 0)
+			if len(other) > 0 || len(reads) == 0 {
+				c.Undecided(key, site, "the limit given to DiachronicFlow.Rollover (%s) is not (only) read from the BucketRing: %v", path(cs.Args()[1]), other)
+				continue
+			}
+			bad := ""
+			for _, rd := range reads {
+				rs := rd.rs
+				// instructions that can run after the read: in its own function, and after each enclosing closure is made
+				var from ssa.Instruction = rd.at
+				for fn := rd.at.Parent(); fn != nil && bad == ""; fn = fn.Parent() {
+					start := from
+					allInstrs(fn, false, func(_ *ssa.Function, in ssa.Instruction) {
+						if bad != "" || in == start {
+							return
+						}
+						later := (in.Block() == start.Block() && instrIndex(in) > instrIndex(start)) || (in.Block() != start.Block() && instrReaches(start, in)) || (in.Block() == start.Block() && instrReaches(start, start))
+						if !later {
+							return
+						}
+						if fv := mayWrite(in, rs); fv != nil {
+							bad = fmt.Sprintf("the limit is %s read at %s, but %s at %s, which can run after that read, writes BucketRing.%s it depends on: the DiachronicFlows are pruned against the ring as it was before that write (windows of the recycled bucket stay, or retained ones go)",
+								rd.what, p.Pos(rd.at.Pos()), c32Describe(in), p.Pos(in.Pos()), fv.Name())
+						}
+					})
+					mc := makeClosureOf(fn)
+					if mc == nil {
+						break
+					}
+					from = mc
+				}
+			}
+			c.Check(bad == "", key, site, fmt.Sprintf("limit comes from %d ring read(s); nothing that runs after them writes what they depend on", len(reads)), bad)
+		}
+	}
+	if n == 0 {
+		c.Lost("no call of DiachronicFlow.Rollover")
+	}
+}
+
+func c32Describe(in ssa.Instruction) string {
+	if ci, ok := in.(ssa.CallInstruction); ok {
+		if f := calleeOf(ci.Common()); f != nil {
+			return "the call of " + f.Name()
+		}
+		return "a call"
+	}
+	return "the store"
+}
+
 func runC32(c *Ctx) {
 	p := c.Load(c32Pkg)
 	c.Rule("C32.once", "E-OWN/E-PAIR/E-GUARD/E-FLOW", "Sink.Receive only from EmitFlowCollections, for built collections, always completed; no collection for a pushed window; pushed set by Complete for all recorded buckets, cleared by Reset only", 8)
 	c.Rule("C32.count", "E-PAIR/E-GUARD/E-FLOW", "an accepted flow goes into exactly the bucket findBucket chose and the same window of its DiachronicFlow; findBucket's bucket contains t; Reset renews statistics", 7)
+
+	c.Rule("C32.expiry", "E-ORDER/E-EFFECT", "the limit handed to DiachronicFlow.Rollover is read from the ring and no later instruction of the rolling function (or a callee) writes a field that read depends on: windows are pruned against the ring as it is after the recycle", 1)
+	c32Expiry(c, p)
 
 	fPushed := c23FieldObj(c, p, c32Pkg, "AggregationBucket.pushed")
 	fBuckets := c23FieldObj(c, p, c32Pkg, "BucketRing.buckets")
